@@ -98,9 +98,9 @@ func parseSCP(args []string) scpParsed {
 
 // flagSet describes the options of one docker (sub)command in pflag terms.
 type flagSet struct {
-	long         map[string]bool   // long name -> takes a value
-	short        map[byte]string   // shorthand -> long name
-	interspersed bool              // options may follow operands
+	long         map[string]bool // long name -> takes a value
+	short        map[byte]string // shorthand -> long name
+	interspersed bool            // options may follow operands
 }
 
 var (
